@@ -1,7 +1,6 @@
 package main
 
 import (
-	"encoding/binary"
 	"fmt"
 	"math"
 	"math/bits"
@@ -15,10 +14,13 @@ import (
 // C19: distinct.Counter driven through the overlay constructor
 // distinct.VerifNewCounter with a scripted random source: every `add` line
 // carries the 64-bit words the call may consume (the source yields 0 when the
-// script is exhausted).  C19.stat: statistical runs with ChaCha8 generators
-// seeded from VERIF_SEED.
+// script is exhausted).  `pnew <size>` / `padd <v>` drive a counter built by
+// the PUBLIC constructor distinct.NewCounter (crypto-seeded ChaCha8: neither
+// scriptable nor observable) in the exact regime, where no word is drawn and
+// every result is deterministic.  C19.stat: statistical runs on counters built
+// by the public distinct.NewCounter.
 //
-//	reset <size> | add <v> <word>... | rst
+//	reset <size> | add <v> <word>... | rst | pnew <size> | padd <v>
 
 type c19src struct {
 	q    []uint64
@@ -40,13 +42,18 @@ type c19 struct {
 	src  *c19src
 	size int
 	seen map[int]bool
+	pub  bool // built by the public NewCounter: words drawn are not observable
 	st   *Stats
 }
 
 func (r *c19) obs() string {
 	b := distinct.VerifBuf(r.c)
 	sort.Ints(b)
-	return fmt.Sprintf("len=%d;count=%d;p=%d;used=%d;buf=%s", r.c.Len(), r.c.Count(), distinct.VerifP(r.c), r.src.used, fmtInts(b))
+	used := strconv.Itoa(r.src.used)
+	if r.pub {
+		used = "-"
+	}
+	return fmt.Sprintf("len=%d;count=%d;p=%d;used=%s;buf=%s", r.c.Len(), r.c.Count(), distinct.VerifP(r.c), used, fmtInts(b))
 }
 
 func c19has(c *distinct.Counter[int], v int) bool {
@@ -65,9 +72,36 @@ func (r *c19) Exec(op []string) string {
 		r.src = &c19src{}
 		r.c = distinct.VerifNewCounter[int](r.size, r.src)
 		r.seen = map[int]bool{}
+		r.pub = false
+		return r.obs()
+	case "pnew":
+		r.size = atoi(op[1])
+		r.src = &c19src{}
+		r.c = distinct.NewCounter[int](r.size) // the public constructor
+		r.seen = map[int]bool{}
+		r.pub = true
+		r.st.Note("public-NewCounter")
+		return r.obs()
+	case "padd":
+		v := atoi(op[1])
+		if r.seen[v] {
+			r.st.Note("public-repeated-value")
+		}
+		r.seen[v] = true
+		r.c.Add(v)
+		switch {
+		case distinct.VerifP(r.c) != math.MaxUint64:
+			r.st.Note("public-left-exact-regime(!)")
+		case len(r.seen) == r.size-1:
+			r.st.Note("public-exact-regime-at-size-1")
+		default:
+			r.st.Note("public-exact-regime")
+		}
 		return r.obs()
 	case "rst":
-		if distinct.VerifP(r.c) != math.MaxUint64 {
+		if r.pub {
+			r.st.Note("public-reset")
+		} else if distinct.VerifP(r.c) != math.MaxUint64 {
 			r.st.Note("reset-after-halving")
 		} else {
 			r.st.Note("reset-in-exact-regime")
@@ -289,19 +323,45 @@ func genC19(g *G) {
 		}
 		g.Case(ops)
 	}
+	// the PUBLIC constructor in the exact regime: D < size distinct values, any repetition pattern, occasional
+	// Reset (after which up to size-1 fresh distinct values may follow): no word is drawn, results deterministic
+	for c := g.Scale(80, 1500); c > 0; c-- {
+		size := 2 + g.Intn(40)
+		if g.Chance(1, 6) {
+			size = 41 + g.Intn(160)
+		}
+		// (every case begins with a `reset` line; its overlay-built counter is replaced at once by the public one)
+		ops := []string{fmt.Sprintf("reset %d", size), fmt.Sprintf("pnew %d", size)}
+		base := 1
+		for seg := 1 + g.Intn(3); seg > 0; seg-- {
+			d := g.Intn(size) // 0..size-1 distinct values
+			if g.Chance(1, 3) {
+				d = size - 1
+			}
+			var vals []int
+			for v := 0; v < d; v++ {
+				for n := 1 + g.Intn(3); n > 0; n-- {
+					vals = append(vals, base+v)
+				}
+			}
+			if g.Chance(2, 3) {
+				g.R.Shuffle(len(vals), func(i, j int) { vals[i], vals[j] = vals[j], vals[i] })
+			}
+			for _, v := range vals {
+				ops = append(ops, "padd "+strconv.Itoa(v))
+			}
+			if seg > 1 {
+				ops = append(ops, "rst")
+				base += g.Intn(d + 1) // overlap with the values seen before the Reset
+			}
+		}
+		g.Case(ops)
+	}
 }
 
 // ---- C19.stat ----
 
 type c19stat struct{ st *Stats }
-
-func c19seed(seed uint64, i int) [32]byte {
-	var s [32]byte
-	binary.LittleEndian.PutUint64(s[0:], seed)
-	binary.LittleEndian.PutUint64(s[8:], uint64(i))
-	binary.LittleEndian.PutUint64(s[16:], 0xC19C19C19)
-	return s
-}
 
 // c19Tolerance is the width of the acceptance interval in standard errors.
 // With >= 2000 independent runs the mean of Count is normal to an excellent
@@ -330,7 +390,9 @@ func (r *c19stat) Exec(op []string) string {
 		exact := true
 		over := 0
 		for i := 0; i < runs; i++ {
-			c := distinct.VerifNewCounter[int](size, randv2.NewChaCha8(c19seed(seed, i)))
+			// the PUBLIC constructor (ChaCha8 seeded from crypto/rand): the runs are independent but not
+			// reproducible from VERIF_SEED; only the stream (values, repetitions, order) is
+			c := distinct.NewCounter[int](size)
 			for _, v := range vals {
 				c.Add(v)
 				if c.Len() > size {
